@@ -141,6 +141,7 @@ func init() {
 			"R-MEMBER - enum acceptance is controlled by equality with a table key, a failed pattern match rejects; R-BOOLWORDS - the fourteen documented words with their " +
 			"polarity; R-ERRDROP - no error of a repo call is discarded. R-CHILDREN - as in C01; R-NOCOERCE - no text-parsing conversion (strconv.Parse*, unit parser) is reachable from Validate / Serialize / ValidateType / SerializeType (edges behind a reflect-kind gate that excludes strings are cut; edges into ValidateCompatibility are not followed - assumption). R-CONVKIND - every reflect Convert to a statically known scalar type reachable from Validate / Serialize happens only for source kinds that agree with the target (integer widths among themselves, integer or float to float, otherwise the same kind): established by Kind() comparisons or by a kind predicate of the repo that is evaluated here over all pairs of kinds. NOT decided: that the lenient conversions denote the right number; unit arithmetic (C16).",
 		Rules: []func(*Ctx){
+			func(c *Ctx) { c.ruleFmtPrec("R-FMTPREC") },
 			func(c *Ctx) { c.ruleGrammar("R-GRAMMAR"); c.R.Floor("R-GRAMMAR", 2) },
 			func(c *Ctx) { c.ruleConvKind("R-CONVKIND"); c.R.Floor("R-CONVKIND", 4) },
 			func(c *Ctx) { c.ruleNoCoerce("R-NOCOERCE"); c.R.Floor("R-NOCOERCE", 3) },
